@@ -566,10 +566,11 @@ fn judge_mutant_inner(run: &Sink, targets: &BTreeMap<String, Target>, c: &Case) 
             }
             let gone: Vec<&String> = vx.codes.iter().filter(|k| !vy.codes.contains(k)).take(3).collect();
             let new: Vec<&String> = vy.codes.iter().filter(|k| !vx.codes.contains(k)).take(3).collect();
-            Err(Fail::new(
-                format!("C18:rt-changes-report-of-valid-store:{reg}:{}:{}-to-{}", c02::diff_token(&diff), vx.state, vy.state),
-                format!("{ctxt}: read(m) is {} but read(rt(m)) is {}; codes gone {gone:?}, new {new:?}; first report difference {diff}", vx.state, vy.state),
-            ))
+            // The property speaks of byte fixed points only; a report difference between m and rt(m) is
+            // recorded (it points at parts of the store the parser drops), never judged.
+            let _ = (&gone, &new, &ctxt);
+            run.count(&format!("b:rt-changes-report-of-valid-store:{reg}:{}:{}-to-{}", c02::diff_token(&diff), vx.state, vy.state));
+            Ok(())
         }
         (Err(ea), Ok(y)) => {
             run.count(&format!("b:unreadable-m-readable-rt:{reg}:to-{}", sdk::verdict(&y).state));
